@@ -88,6 +88,20 @@ structure MI where
   index : Int
 deriving DecidableEq, Repr, Inhabited
 
+/-- which of the three repairs the working tree contains (probed by the harness on fixed inputs):
+`basicMatchStart` — `basic_regex_match` places the token at `match.start()` instead of `source.index(match.group())`;
+`mdtLenFixed` — `merge_date_and_time` slices the middle string up to `len(middle_str)` instead of evaluating
+`len(middle_end)` on an int; `rangeRstrip` — the from / between look-ups of the period extractors run on
+`source[0:begin].rstrip()` (indices are source offsets) instead of `.strip()`. `Variant.current` = none of them. -/
+structure Variant where
+  basicMatchStart : Bool
+  mdtLenFixed : Bool
+  rangeRstrip : Bool
+deriving DecidableEq, Repr, Inhabited
+
+def Variant.current : Variant := ⟨false, false, false⟩
+def Variant.repaired : Variant := ⟨true, true, true⟩
+
 /-- `get_tokens_from_regex`: `Token(x.start(), x.end())` per match. -/
 def tokensOf (ms : List Mt) : List Tok := ms.map fun m => ⟨m.s, m.e⟩
 
@@ -108,6 +122,16 @@ def dateBasicOne (f : BasicFact) : Tok :=
 
 /-- `BaseDateExtractor.basic_regex_match` (`fs` = the matches that passed `validate_match`, regex by regex). -/
 def dateBasic (fs : List BasicFact) : List Tok := fs.map dateBasicOne
+
+/-- the repaired `basic_regex_match`: `pre_text = source[0:match.start()]`, token `[match.start(), match.end())`
+(or from the relative term in front of it). -/
+def dateBasicOneFixed (f : BasicFact) : Tok :=
+  match f.rel with
+  | some c => if c.succ then ⟨c.idx, f.m.e⟩ else ⟨f.m.s, f.m.e⟩
+  | none => ⟨f.m.s, f.m.e⟩
+
+def dateBasicV (v : Variant) (fs : List BasicFact) : List Tok :=
+  if v.basicMatchStart then fs.map dateBasicOneFixed else dateBasic fs
 
 /-- what `get_year_index(affix, year, in_prefix)` sees: `year_suffix.match(affix)`, whether the year read from it
 is in `[MIN_YEAR_NUM, MAX_YEAR_NUM]`, `len(affix)`, `len(affix.strip())`. -/
@@ -429,14 +453,22 @@ def tagInequality (e : Ent) (more less : Option (CM × Int)) : Ent :=
 def entOverlap (a b : Ent) : Bool :=
   !decide (a.start > b.start + b.len - 1) && !decide (b.start > a.start + a.len - 1)
 
-/-- the outcome of the middle-string gate of `merge_date_and_time` for a (date, time) / (time, date) pair:
-`raises` = `suffix_after_regex` matched (the code then evaluates `len(middle_end)` on an int: TypeError),
-`valid`, and `yext` = what `extend_with_date_time_and_year` adds to the end. -/
+/-- what the middle-string gate of `merge_date_and_time` sees for a (date, time) / (time, date) pair:
+`sufAfter` = `suffix_after_regex.search(middle_str)` matched; `restEmpty` = what is left of the middle string behind
+that match is empty; `conn` = `is_connector_token` of the middle string (of the rest, when `sufAfter`); `yext` = what
+`extend_with_date_time_and_year` adds to the end. -/
 structure Gate where
-  raises : Bool
-  valid : Bool
+  sufAfter : Bool
+  restEmpty : Bool
+  conn : Bool
   yext : Int
 deriving DecidableEq, Repr, Inhabited
+
+/-- `none` = the code raises: the current tree evaluates `len(middle_end)` on an int as soon as `suffix_after_regex`
+matches; the repaired tree slices up to `len(middle_str)`. -/
+def gateValid (v : Variant) (g : Gate) : Option Bool :=
+  if g.sufAfter then (if v.mdtLenFixed then some (!g.restEmpty && g.conn) else none)
+  else some g.conn
 
 /-- the token built for a valid (date, time) / (time, date) pair. -/
 def mdtPairTok (a b : Ent) (g : Gate) : Tok := ⟨a.start, b.start + b.len + g.yext⟩
@@ -451,7 +483,7 @@ def skipOverlap (ers : Array (Ent × Bool)) (i : Nat) : Nat → Nat → Nat
 
 /-- the pairing loop (`isDate` flags the kind; only date / time kinds: `options` = 0). Gates are consumed in the
 order the code evaluates them. `none` = TypeError. -/
-def mdtLoop (ers : Array (Ent × Bool)) : Nat → Nat → List Gate → List Tok → Option (List Tok)
+def mdtLoop (v : Variant) (ers : Array (Ent × Bool)) : Nat → Nat → List Gate → List Tok → Option (List Tok)
   | 0, _, _, acc => some acc
   | fuel + 1, i, gates, acc =>
     if i + 1 < ers.size then
@@ -463,16 +495,16 @@ def mdtLoop (ers : Array (Ent × Bool)) : Nat → Nat → List Gate → List Tok
           if a.2 != b.2 then
             let mb := a.1.start + a.1.len
             let me := b.1.start
-            if mb > me then mdtLoop ers fuel (j + 1) gates acc
+            if mb > me then mdtLoop v ers fuel (j + 1) gates acc
             else
               match gates with
               | [] => some acc     -- (no recorded gate: cannot happen on a faithful replay)
               | g :: gs =>
-                if g.raises then none
-                else if g.valid then
-                  mdtLoop ers fuel (j + 1) gs (acc ++ [mdtPairTok a.1 b.1 g])
-                else mdtLoop ers fuel j gs acc
-          else mdtLoop ers fuel j gates acc
+                match gateValid v g with
+                | none => none
+                | some true => mdtLoop v ers fuel (j + 1) gs (acc ++ [mdtPairTok a.1 b.1 g])
+                | some false => mdtLoop v ers fuel j gs acc
+          else mdtLoop v ers fuel j gates acc
         | _, _ => some acc
     else some acc
 
@@ -483,9 +515,9 @@ def mdtWiden (t : Tok) (suf pre : Option Mt) : Tok :=
   match pre with | some m => ⟨t1.start - (m.e - m.s), t1.stop⟩ | none => t1
 
 /-- `merge_date_and_time` after the early returns; `wid` = the (suffix, prefix) match per produced token. -/
-def mergeDateAndTime (ers : List (Ent × Bool)) (gates : List Gate) (wid : List (Option Mt × Option Mt)) :
+def mergeDateAndTime (v : Variant) (ers : List (Ent × Bool)) (gates : List Gate) (wid : List (Option Mt × Option Mt)) :
     Option (List Tok) :=
-  match mdtLoop ers.toArray ers.length 0 gates [] with
+  match mdtLoop v ers.toArray ers.length 0 gates [] with
   | none => none
   | some ts => some ((ts.zip (wid ++ List.replicate ts.length (none, none))).map fun x => mdtWiden x.1 x.2.1 x.2.2)
 
@@ -529,16 +561,22 @@ def durationWithBeforeAndAfter (n : Int) (fs : List AgoFacts) : List Tok := fs.f
 
 /-! ## BaseDatePeriodExtractor / BaseTimePeriodExtractor / BaseDateTimePeriodExtractor: two points → a range -/
 
-/-- what one iteration that reaches the connector test sees. `fromI` / `betweenI` come from
-`get_from_token_index` / `get_between_token_index` on `source[0:period_begin].strip().lower()` — indices into the
-STRIPPED (and lower-cased) prefix. `afterBetween` = `get_between_token_index(after)` (time period only). -/
+/-- what one iteration that reaches the connector test sees. `fromI` / `betweenI`: whether `get_from_token_index` /
+`get_between_token_index` found the word in front of the first point and WHERE THE WORD IS IN THE SOURCE (`index` =
+source offset); `lead` = number of leading blanks of `source[0:period_begin]`. The current tree runs the look-ups on
+`.strip()` of that prefix, so what it gets back is `index - lead`; the repaired tree (`.rstrip()`) gets `index`.
+`afterBetween` = `get_between_token_index(after)` (time period only; its index as returned). -/
 structure PairFact where
   till : Bool
   conn : Bool
   fromI : MI
   betweenI : MI
   afterBetween : MI
+  lead : Int
 deriving DecidableEq, Repr, Inhabited
+
+/-- the index the look-up hands back. -/
+def lookupIndex (v : Variant) (f : PairFact) (m : MI) : Int := if v.rangeRstrip then m.index else m.index - f.lead
 
 /-- which extractor's loop. -/
 inductive RangeKind
@@ -546,48 +584,51 @@ inductive RangeKind
 deriving DecidableEq, Repr, Inhabited
 
 /-- what one reached pair `(a, b)` contributes: `some token` (and the loop moves on by two) or `none`. -/
-def rangePairTok (k : RangeKind) (a b : Ent) (f : PairFact) : Option Tok :=
+def rangePairTok (v : Variant) (k : RangeKind) (a b : Ent) (f : PairFact) : Option Tok :=
   let pe := b.start + b.len
   if f.till then
     let pb : Int :=
       match k with
       | .timePeriod =>
         -- `if from: begin = from.index`, then `if between: begin = between.index` (between wins)
-        if f.betweenI.matched then f.betweenI.index else if f.fromI.matched then f.fromI.index else a.start
-      | _ => if f.fromI.matched then f.fromI.index else if f.betweenI.matched then f.betweenI.index else a.start
+        if f.betweenI.matched then lookupIndex v f f.betweenI
+        else if f.fromI.matched then lookupIndex v f f.fromI else a.start
+      | _ =>
+        if f.fromI.matched then lookupIndex v f f.fromI
+        else if f.betweenI.matched then lookupIndex v f f.betweenI else a.start
     -- time period: "between" found in `after` REPLACES the end by an index into `after`
     let pe' : Int := if k == .timePeriod && f.afterBetween.matched then f.afterBetween.index else pe
     some ⟨pb, pe'⟩
-  else if f.conn && f.betweenI.matched then some ⟨f.betweenI.index, pe⟩
+  else if f.conn && f.betweenI.matched then some ⟨lookupIndex v f f.betweenI, pe⟩
   else none
 
 /-- the token-building loop (`check_both_before_after = False`). `skipPair i` = the pair `(i, i+1)` is both
 TIME results (date-time period only: the loop then ends). Pair facts are consumed in order. -/
-def rangeLoop (k : RangeKind) (ers : Array Ent) (skipPair : Nat → Bool) : Nat → Nat → List PairFact → List Tok → List Tok
+def rangeLoop (v : Variant) (k : RangeKind) (ers : Array Ent) (skipPair : Nat → Bool) : Nat → Nat → List PairFact → List Tok → List Tok
   | 0, _, _, acc => acc
   | fuel + 1, i, facts, acc =>
     if i + 1 < ers.size then
       match ers[i]?, ers[i + 1]? with
       | some a, some b =>
         -- date-time period: two adjacent TIME points end the loop (`break`, sic)
-        if skipPair i then (if k == .dateTimePeriod then acc else rangeLoop k ers skipPair fuel (i + 1) facts acc)
+        if skipPair i then (if k == .dateTimePeriod then acc else rangeLoop v k ers skipPair fuel (i + 1) facts acc)
         else
           -- date period: `middle_begin >= middle_end` skips the pair; the other two have no such test
-          if k == .datePeriod && decide (a.start + a.len ≥ b.start) then rangeLoop k ers skipPair fuel (i + 1) facts acc
+          if k == .datePeriod && decide (a.start + a.len ≥ b.start) then rangeLoop v k ers skipPair fuel (i + 1) facts acc
           else
             match facts with
             | [] => acc
             | f :: fs =>
-              match rangePairTok k a b f with
+              match rangePairTok v k a b f with
               | some t =>
                 -- date-time period: `break` after the first token (sic, a mis-ported `continue`)
-                if k == .dateTimePeriod then acc ++ [t] else rangeLoop k ers skipPair fuel (i + 2) fs (acc ++ [t])
-              | none => rangeLoop k ers skipPair fuel (i + 1) fs acc
+                if k == .dateTimePeriod then acc ++ [t] else rangeLoop v k ers skipPair fuel (i + 2) fs (acc ++ [t])
+              | none => rangeLoop v k ers skipPair fuel (i + 1) fs acc
       | _, _ => acc
     else acc
 
-def rangeMerge (k : RangeKind) (ers : List Ent) (skipPair : Nat → Bool) (facts : List PairFact) : List Tok :=
-  if ers.length ≤ 1 then [] else rangeLoop k ers.toArray skipPair ers.length 0 facts []
+def rangeMerge (v : Variant) (k : RangeKind) (ers : List Ent) (skipPair : Nat → Bool) (facts : List PairFact) : List Tok :=
+  if ers.length ≤ 1 then [] else rangeLoop v k ers.toArray skipPair ers.length 0 facts []
 
 /-- one date-unit duration of `BaseDatePeriodExtractor.match_duration`. -/
 structure MdFact where
